@@ -192,10 +192,16 @@ def stepCore (s : State) (op obs : List String) : State × String :=
         match per with
         | none => (s, "bad-op")
         | some per =>
+          -- a failure the accounting model has no reason for (`other:<class>`, e.g. a float NaN in the pricing of the
+          -- closing payments) is an observation like the failures of the other operations: nothing changes
+          let otherFail := status = "fail" && (match rest with | r :: _ => r.startsWith "other:" | [] => false)
           match ZChain.Storage.step s (.close (verb = "fin") k c X per) with
-          | .ok s' => answer (" ".intercalate ("ok" :: (if status = "ok" then rest else []))) s'
+          | .ok s' => if otherFail then answer (" ".intercalate (status :: rest)) s
+                      else answer (" ".intercalate ("ok" :: (if status = "ok" then rest else []))) s'
           | .error (.fail r) => answer ("fail " ++ r) s
-          | .error (.inadm w) => if status = "ok" then answer ("inadmissible " ++ w) s else answer "model-ok-impl-failed" s
+          | .error (.inadm w) => if status = "ok" then answer ("inadmissible " ++ w) s
+                                  else if otherFail then answer (" ".intercalate (status :: rest)) s
+                                  else answer "model-ok-impl-failed" s
       | _, _ => (s, "bad-op")
     | _, _ => (s, "bad-op")
   | ["rpu", j] =>
